@@ -163,6 +163,14 @@ def _inside(rnd, f, segs, bounds, j):
     return T
 
 
+def _inside_or_on_bound(rnd, f, segs, bounds, j):
+    """a temperature inside segment j or, in a third of the draws, exactly ON one of its two bounds (range ends and
+    break temperatures: G = H - T S must hold there too, whichever segment the library takes for the point)"""
+    if rnd.random() < 0.35:
+        return float(bounds[segs[j][rnd.randrange(2)]])
+    return _inside(rnd, f, segs, bounds, j)
+
+
 def exec_numeric(case):
     """basis / linear / ghs / deriv / edit probes"""
     import numpy as np
@@ -209,7 +217,8 @@ def exec_numeric(case):
     detail = {'forms': forms}
     if kind == 'ghs':
         j = rnd.randrange(len(segs))
-        T = _inside(rnd, f, segs, bounds, j)
+        T = _inside_or_on_bound(rnd, f, segs, bounds, j)
+        detail['ghs_T_on_bound'] = T in [float(b) for b in bounds.values()]
         out.append({'ev': 'ghs', 'f': f, 'G': to_dec(sq(obj.get_GoRT(T=T))), 'H': to_dec(sq(obj.get_HoRT(T=T))),
                     'S': to_dec(sq(obj.get_SoR(T=T)))})
         if f == 'shomate':                    # the module-level helper of the anchors
@@ -222,7 +231,7 @@ def exec_numeric(case):
         # the same relation under the entropy-of-the-elements option, dimensionless and in the unit `gu`, for every
         # temperature of an array (length 1-5, any container), and the dimensional getters on the whole array
         nT = case.get('nT', 1)
-        Ts = [T] + [_inside(rnd, f, segs, bounds, rnd.randrange(len(segs))) for _ in range(nT - 1)]
+        Ts = [T] + [_inside_or_on_bound(rnd, f, segs, bounds, rnd.randrange(len(segs))) for _ in range(nT - 1)]
         rows = []
         for i, Ti in enumerate(Ts[:2]):
             T_in = Ti if (case['cseed'] + i) % 2 else np.array([Ti])
@@ -610,6 +619,7 @@ def run(ctx):
                 if f == 'shomate':
                     seen('shomate_units_%s' % kind, fm['units'])
                 if kind == 'ghs':
+                    seen('ghs_T', ('on a bound ' if detail.get('ghs_T_on_bound') else 'inside ') + f)
                     seen('dim_units', fm['gunits'])
                     seen('dim_array_length', case.get('nT', 1))
                     seen('dim_T_container', fm['tcont'])
@@ -663,6 +673,7 @@ def _vacuity(cov, units):
         'empty_array': ['nasa7', 'nasa9', 'shomate'], 'int_array': ['nasa7', 'nasa9', 'shomate'],
         'on_range_end': ['nasa7', 'nasa9', 'shomate'], 'on_interior_bound': ['nasa7', 'nasa9'],
         'adjacent_to_bound': ['nasa7', 'nasa9', 'shomate'], 'refused': ['nasa9'],
+        'ghs_T': [a + f for a in ('on a bound ', 'inside ') for f in ('nasa7', 'nasa9', 'shomate')],
         'dim_units': units, 'dim_units_deriv': units, 'dim_array_length': ['1', '2', '3', '5'],
         'dim_T_container': L.TCONT,
         'deriv_getters': [a + f for a in ('dimensional ', 'dimensionless ') for f in ('nasa7', 'nasa9', 'shomate')],
